@@ -1099,3 +1099,27 @@ def gen_elem(L, K, rng, moved_targets=False):
         if E[e] is not None:
             g.lines.append("edestroy %d" % e)
     return g.finish(), g.stats
+
+
+# ---------------------------------------------------------------- allocation failure (C17)
+ALLOC_OPS = ("mkvec", "reserve", "copyctor", "copyassign", "moveassign", "efromref", "ecopy", "ecopyalloc",
+             "emovealloc", "ecopyassign", "emoveassign")
+RETRY_OPS = ("reserve", "copyassign", "ecopyassign")
+
+
+def fault_variants(lines, maxk):
+    """for every step of a valid history that may allocate and every k < maxk: the history up
+    to that step, 'fail the (k+1)-th allocation from now', the step, a retry where that is
+    valid whether or not the step threw, then destruction of everything"""
+    out = []
+    for i, l in enumerate(lines):
+        op = l.split()[0]
+        if op not in ALLOC_OPS:
+            continue
+        for k in range(maxk):
+            v = lines[:i] + ["failat %d" % k, l]
+            if op in RETRY_OPS:
+                v.append(l)
+            v += ["destroy %d" % s for s in range(4)] + ["edestroy %d" % s for s in range(4)]
+            out.append(v)
+    return out
